@@ -179,7 +179,7 @@ def hermes_permutation(ctx, rule):
     b = ctx.body(HREW)
     fn = b.path
     mp = named(b, lambda s: s == "try(SourceMap::rewrite_with_mapping(arg1.sm,arg2)).1")
-    fm = [l for l in sorted(b.var_names) if b.var_names[l] == "function_maps" or "HermesFunctionMap" in b.local_ty(l) and b.locals[l]["mut"]]
+    fm = [l for l in sorted(b.var_names) if "Vec<core::option::Option<hermes::HermesFunctionMap>>" in b.local_ty(l) and b.locals[l]["mut"]]
     if not ctx.check(len(mp) == 1 and len(fm) >= 1, rule, fn, "roles", "the old-id mapping and the function maps are recognisable"):
         return
     roles = {mp[0]: "mapping"}
@@ -197,17 +197,17 @@ def hermes_permutation(ctx, rule):
     rets = []
     if c0 is not None:
         rets = [q.shape(c0.expr_of_call(t)) for bi, t in c0.calls() if t["dest"]["l"] == 0]
-    ctx.check(rets == ["Option::and_then(slice::get_mut(upvar:function_maps,cast<usize>(arg2)),fn:Option::take)"], rule, fn, "function_maps:get_mut",
+    ctx.check(rets == ["Option::and_then(slice::get_mut(^var:Vec<Option<HermesFunctionMap>>,cast<usize>(arg2)),fn:Option::take)"], rule, fn, "function_maps:get_mut",
               "each entry is looked up with the non-panicking get_mut at the old id and taken", detail=str(rets))
     c1 = ctx.facts.body(HREW + "::{closure#1}", required=False)
     ok = False
     if c1 is not None:
         sh = [q.shape(c1.expr_of_call(t)) for bi, t in c1.calls()]
-        ok = any(q.wild("Iterator::map(IntoIterator::into_iter(upvar:mapping),closure:*)", s) or q.wild("IntoIterator::into_iter(upvar:mapping)", s) for s in sh)
+        ok = any(q.wild("Iterator::map(IntoIterator::into_iter(^try(SourceMap::rewrite_with_mapping(arg1.sm,arg2)).1),closure:*)", s) or q.wild("IntoIterator::into_iter(^try(SourceMap::rewrite_with_mapping(arg1.sm,arg2)).1)", s) for s in sh)
     ctx.check(ok, rule, fn, "raw_sources:by-mapping", "the raw x_facebook_sources are permuted by the same mapping")
     c10 = ctx.facts.body(HREW + "::{closure#1}::{closure#0}", required=False)
     rets = [q.shape(c10.expr_of_call(t)) for bi, t in c10.calls() if t["dest"]["l"] == 0] if c10 is not None else []
-    ctx.check(rets == ["Option::and_then(slice::get_mut(upvar:sources,cast<usize>(arg2)),fn:Option::take)"], rule, fn, "raw_sources:get_mut",
+    ctx.check(rets == ["Option::and_then(slice::get_mut(^arg2,cast<usize>(arg2)),fn:Option::take)"], rule, fn, "raw_sources:get_mut",
               "each raw entry is looked up with the non-panicking get_mut at the old id", detail=str(rets))
     import pf
     bodies = [b] + [x for x in ctx.facts.closures_of(HREW)]
@@ -247,7 +247,7 @@ def cache_coherence(ctx, rule):
     ctx.check(rets == ["Not(str::is_empty(arg2))"], rule, b.path, "filter:non-empty", "an empty root counts as no root", detail=str(rets))
     mcl = ctx.facts.body("types::SourceMap::set_source_root::{closure#1}", required=False)
     calls = [q.shape(mcl.expr_of_call(t)) for bi, t in mcl.calls() if t.get("resolved_local")] if mcl else []
-    ctx.check(calls == ["SourceMap::prefix_source(upvar:source_root,arg2)"], rule, b.path, "cache:prefix_source", "each cached name is prefix_source(root, raw name)", detail=str(calls))
+    ctx.check(calls == ["SourceMap::prefix_source(^some(Option::filter(Option::as_deref(arg1.source_root),closure:set_source_root::{closure#0})),arg2)"], rule, b.path, "cache:prefix_source", "each cached name is prefix_source(root, raw name)", detail=str(calls))
     # set_source patches the cache entry with the current root
     s = ctx.body("types::SourceMap::set_source")
     calls = [q.shape(s.expr_of_call(t)) for bi, t in s.calls()]
@@ -361,7 +361,7 @@ def flatten_roles(b):
     for l in named(b, lambda s: s == "some(SourceMapSectionIter::next(var:SourceMapSectionIter))"):
         roles[l] = "section"
     for l in sorted(b.var_names):
-        if b.var_names[l] == "map" and "Cow<" in b.local_ty(l):
+        if "Cow<" in b.local_ty(l) and "SourceMap" in b.local_ty(l):
             roles[l] = "map"
     for l in named(b, lambda s: s == "SourceMapSection::get_offset(some(SourceMapSectionIter::next(var:SourceMapSectionIter))).0"):
         roles[l] = "off_line"
